@@ -181,6 +181,7 @@ func run(sc scenario) (trace []event, err error) {
 	abortDir, abortAfter := "", 0
 	abortReq, abortSeen, aborting := uint32(0), 0, false
 	abortedChunks := 0
+	dropReq := map[string]bool{} // direction+request id of aborted messages: later chunks are dropped
 	tap := func(f chanpair.Frame) [][]byte {
 		mu.Lock()
 		defer mu.Unlock()
@@ -192,6 +193,9 @@ func run(sc scenario) (trace []event, err error) {
 		case "MSG", "OPN":
 			if f.Type() == "MSG" && f.Dir == abortDir && len(f.Data) >= 24 {
 				req := binary.LittleEndian.Uint32(f.Data[20:])
+				if dropReq[fmt.Sprint(f.Dir, req)] {
+					return nil // rest of an aborted message
+				}
 				if !aborting && f.Kind() == 'C' {
 					aborting, abortReq, abortSeen = true, req, 0
 				}
@@ -208,15 +212,12 @@ func run(sc scenario) (trace []event, err error) {
 						out := append(append([]byte{}, f.Data[:24]...), body...)
 						out[3] = 'A'
 						binary.LittleEndian.PutUint32(out[4:], uint32(len(out)))
-						if f.Kind() == 'F' {
-							abortDir, aborting = "", false
-						}
+						// the plan is carried out; whatever the sender still writes for this
+						// request id (it may also stop: its call is cancelled) is dropped
+						dropReq[fmt.Sprint(f.Dir, req)] = true
+						abortDir, aborting = "", false
 						return [][]byte{out}
 					}
-					if f.Kind() == 'F' {
-						abortDir, aborting = "", false
-					}
-					return nil // rest of the aborted message
 				}
 			}
 			chunks[f.Dir+f.Type()] = append(chunks[f.Dir+f.Type()], len(f.Data))
@@ -425,7 +426,11 @@ func run(sc scenario) (trace []event, err error) {
 				return nil, fmt.Errorf("aborted response was delivered")
 			}
 		}
+		// the sender may still be writing the rest of the aborted message through the proxy
 		done, n := abortDone()
+		for t0 := time.Now(); !done && time.Since(t0) < 5*time.Second; done, n = abortDone() {
+			time.Sleep(2 * time.Millisecond)
+		}
 		if !done || n != j {
 			return nil, fmt.Errorf("abort plan not carried out: done=%v, %d of %d intermediate chunks passed", done, n, j)
 		}
